@@ -343,6 +343,25 @@ def lock_cause(prefix):
 
 
 # ------------------------------------------------------------------ environment
+ENV_FORMS = [
+    ('available/reference', 'available-environment-variables#0()'),
+    ('available/lookup', "function-lookup(xs:QName('fn:available-environment-variables'), 0)()"),
+    ('available/let-reference', 'let $f := available-environment-variables#0 return $f()'),
+    ('available/apply', 'apply(available-environment-variables#0, [])'),
+    ('available/for-each', 'for-each(1, function($i) { available-environment-variables() })'),
+    ('available/inline', 'function() { available-environment-variables() }()'),
+    ('variable/reference', 'environment-variable#1($n)'),
+    ('variable/lookup', "function-lookup(xs:QName('fn:environment-variable'), 1)($n)"),
+    ('variable/let-reference', 'let $f := environment-variable#1 return $f($n)'),
+    ('variable/partial', 'environment-variable(?)($n)'),
+    ('variable/apply', 'apply(environment-variable#1, [$n])'),
+    ('variable/arrow', '$n => environment-variable()'),
+    ('variable/for-each', 'for-each($n, environment-variable#1)'),
+    ('variable/map-operator', '$n ! environment-variable(.)'),
+    ('variable/inline', 'function($v) { environment-variable($v) }($n)'),
+]
+
+
 def run_env(case, out):
     canary_name, canary_val = 'RV_C19_CANARY', 'canary-%s' % case['token']
     os.environ[canary_name] = canary_val
@@ -361,6 +380,23 @@ def run_env(case, out):
                 if res[0] != 'ok' or res[1] != []:
                     out.fail('C19/environment/visible-by-default/environment-variable', '%s -> %r' % (nm, res))
                     break
+            # every way of calling the two functions (function items carry a context of their own)
+            for form, expr in ENV_FORMS:
+                if ver == '3.0' and ('=>' in expr or 'apply(' in expr):
+                    continue
+                res = call(elementpath.select, root, expr, parser=PARSERS[ver], variables={'n': canary_name})
+                out.dim('env_call_form', form)
+                if res[0] == 'ok' and res[1] not in ([], None):
+                    out.fail('C19/environment/visible-by-default/%s' % form, '%s -> %r' % (expr, res[1])[:200])
+                elif res[0] != 'ok':
+                    out.fail('C19/environment/call-form-fails/%s' % form, '%s -> %r' % (expr, res)[:200])
+
+                def form_allowed():
+                    tok = PARSERS[ver]().parse(expr)
+                    return tok.evaluate(XPathContext(root, variables={'n': canary_name}, allow_environment=True))
+                res = call(form_allowed)
+                if res[0] == 'ok' and canary_val in repr(res[1]) or canary_name in repr(res[1:2]):
+                    out.dim('env_call_form_allowed_visible', form)
             # the monitor is reached: with allow_environment the value is visible
             def allowed():
                 tok = PARSERS[ver]().parse('environment-variable($n)')
@@ -811,6 +847,9 @@ def floors(v):
         reasons.append('fewer than 6 child interpreters under locale environment variables')
     if v.got('entity_probe') < 100:
         reasons.append('fewer than 100 entity probes')
+    for form, _ in ENV_FORMS:
+        if v.got('env_call_form_allowed_visible', form) < 1:
+            reasons.append('environment call form %s never exposed the variable under allow_environment=True' % form)
     if v.got('env_probe', 'allowed-visible') < 1:
         reasons.append('the environment monitor was never reached with allow_environment=True')
     if v.got('thread_trial') < 3:
